@@ -354,4 +354,6 @@ def build():
         bank.add(whole, ("snoc", z3.Concat(a_, b_), y_))
         return [ih], z3.Implies(wf_all.t(whole), wf_all.t(a_))
     L.append(Lemma("wf_all-prefix", [("base", wp_base), ("step", wp_step)], P))
+    world.trusted_notes.append('list comprehension = map (sources_of / positions_of / fqns), all(generator) = conjunction over the iterated sequence (all_src), str.join = interleaving (join_str)')
+    world.trusted_notes.append('dispatch of + over origins: CodeOrigin and its subclasses use CodeOrigin.__add__, every other library class Origin.__add__ (user subclasses overriding __add__ are excluded)')
     return world, lib, reg, L
